@@ -812,6 +812,11 @@ def run_sender_case(rng, budget=70, adversarial=False):
                     w.out(['x', 1])
                     rec['raised'] = True
                     break
+                except Exception as e:      # noqa: anything else is not part of the machine: the publisher died of it
+                    w.flush_pubs()
+                    w.out(['x', 9])
+                    rec['raised'] = '%s: %s' % (type(e).__name__, e)
+                    break
                 w.flush_pubs()
                 w.out(['r', None if res is None else res.msg_id])
                 rec['ret'] = None if res is None else res.msg_id
@@ -867,6 +872,20 @@ def send_oracle(run, case, props):
         if 'C07' in props and not cfg['balance'] and len(p['outs']) != cfg['nout']:
             run.violation('unbalanced:partial-outs outs=%s' % p['outs'], 'a non-balanced publisher skipped an output', summary)
         last = p['mid'] if last is None else max(last, p['mid'])
+    if props & {'C02', 'C07', 'C03'}:
+        # send() reports what it did: a call during which the frame went out does not return None ("timed out, nothing sent") -
+        # the caller would send the same frame again, under the next id
+        for i, rec in enumerate(case['calls']):
+            end = case['calls'][i + 1]['item'] if i + 1 < len(case['calls']) else len(case['items'])
+            pubs = [p for p in case['publishes'] if rec['item'] <= p['item'] < end]
+            if pubs and 'ret' in rec and rec['ret'] is None:
+                run.violation('sender:published-but-reported-timeout id=%s' % pubs[0]['mid'],
+                              'the send() call starting at item %d published id %s (item %d) and returned None as if nothing had been sent'
+                              % (rec['item'], pubs[0]['mid'], pubs[0]['item']), summary)
+    for rec in case['calls']:
+        if isinstance(rec.get('raised'), str):
+            run.violation('sender:raises %s' % rec['raised'].split(':')[0],
+                          'ZMQSender.send raised %s (a publisher that dies of a request starves everything downstream)' % rec['raised'], summary)
     for it in case['items']:
         for o in it[1]:
             if o[0] == 'P' and o[-1] == 'malformed' and 'C01' in props:
@@ -876,19 +895,32 @@ def send_oracle(run, case, props):
         #  (a) a tracked client leaves the table only by its own CLOSE or after CONN_TIMEOUT of silence (C04_eviction_only_after_timeout)
         #  (b) a frame goes out only when every tracked synchronized client has an unanswered request (C04_gate_needs_every_sync_client)
         prev = None
+        heard = {}       # client -> virtual time (ms) at which its last frame request was read: the oracle's own clock, not the table's
         for k, it in enumerate(case['items']):
             dig, raw = it[2], it[3]
             if dig is None:
                 break
             now_ms = (raw[2] if raw[0] == 'poll' else raw[-1] if raw[0] == 'call' else None)
             req = raw[1] if raw[0] == 'poll' else None
+            if req and req['mid'] > -2 and now_ms is not None and (req['cid'], req['uid']) in {(c[0], c[1]) for c in dig[1]}:
+                heard[(req['cid'], req['uid'])] = now_ms // 1_000_000
             if prev is not None:
                 after = {(c[0], c[1]): c for c in dig[1]}
+                # (e) a tracked client is synchronized or ephemeral as its own frame requests say; nothing else (an out-of-band
+                #     message, another client's request) turns an ephemeral listener into a client the publisher waits for
+                for key, c in after.items():
+                    mine = bool(req) and (req['cid'], req['uid']) == key and req['mid'] > -2
+                    if key in prev and prev[key][5] != c[5] and not mine:
+                        run.violation('sender:eph-flag-changed client=c%d/u%d %d->%d' % (key[0], key[1], prev[key][5], c[5]),
+                                      'item %d (%s): the table entry of client c%d/u%d changed from eph=%d to eph=%d without a frame request from it'
+                                      % (k, raw[0] if not req else 'message mid %d from c%d' % (req['mid'], req['cid']), key[0], key[1], prev[key][5], c[5]), summary)
+                    elif mine and c[5] != req['eph']:
+                        run.violation('sender:eph-flag-wrong client=c%d/u%d' % key, 'item %d: request says eph=%d, the table says %d' % (k, req['eph'], c[5]), summary)
                 for key, c in prev.items():
                     if key in after:
                         continue
                     closed = bool(req) and (req['cid'], req['uid']) == key and req['mid'] == -3
-                    silent = now_ms is not None and now_ms // 1_000_000 - c[3] > 5000
+                    silent = now_ms is not None and now_ms // 1_000_000 - heard.get(key, c[3]) > 5000
                     if not closed and not silent:
                         run.violation('sender:evicted-early client=c%d/u%d' % key,
                                       'client c%d/u%d (last heard %s ms, now %s ms) left the wait set at item %d without CLOSE or timeout' % (key[0], key[1], c[3], None if now_ms is None else now_ms // 1_000_000, k), summary)
@@ -921,6 +953,34 @@ def send_oracle(run, case, props):
                                           'item %d publishes id %s although the tracked synchronized client c%d/u%d has no unanswered request' % (k, pubs_here[0][2], key[0], key[1]), summary)
                             break
             prev = {(c[0], c[1]): c for c in dig[1]}
+    if props & {'C05', 'C07'} and cfg['balance']:
+        # a splitter's gate, judged on the client table: an endpoint is ready when every client on it has asked or is an ephemeral
+        # listener and at least one has asked; with every required output connected, a ready endpoint means the frame in hand
+        # goes out at the next send_maybe - an idle '?' listener on a worker's endpoint holds nothing up (C05, C07)
+        for k in range(1, len(case['items'])):
+            it, pv = case['items'][k], case['items'][k - 1]
+            raw, praw = it[3], pv[3]
+            if raw[0] != 'poll' or raw[1] is not None or praw[0] != 'poll' or not praw[1] or praw[1]['mid'] <= -2 or pv[2] is None:
+                continue
+            if any(o[0] == 'P' for o in pv[1]) or _in_push_call(case['items'], k):
+                continue
+            tab = pv[2][1]
+            if (praw[1]['cid'], praw[1]['uid']) not in {(c[0], c[1]) for c in tab}:
+                continue            # first contact (handshake): not registered, no scan
+            call = next((case['items'][j][3] for j in range(k, -1, -1) if case['items'][j][3][0] == 'call'), None)
+            if call is None or call[3] is None:
+                continue
+            if not all(any(c[0] == r for c in tab) for r in cfg['required']):
+                continue
+            ready = []
+            for o in sorted({c[2] for c in tab}):
+                on = [c for c in tab if c[2] == o]
+                if all(c[4] or c[5] for c in on) and any(c[4] for c in on):
+                    ready.append(o)
+            if ready and not any(o[0] in ('P', 'x') for o in it[1]):
+                run.violation('balanced:gate-open-no-publish ready=%s' % ready,
+                              'item %d: endpoint(s) %s are ready (every client asked or is ephemeral, one asked), every required output is connected, '
+                              'and the splitter did not publish; table %s' % (k, ready, [(c[0], c[2], c[4], c[5]) for c in tab]), summary)
     if 'C08' in props:
         # an out-of-band message (a downstream filter's exit announcement) is handed up whoever sent it: registered client or
         # not (a filter that dies in setup() has never asked for a frame; one that was silent for 5 s has been evicted)
@@ -1349,6 +1409,13 @@ def glue_cases(run):
                 # oracle: the result contract
                 if kind == 'none' and st != 'nocall':
                     run.violation('contract:none-sent', 'process() returned None but the sender was called', dict(ops=raw))
+                # a deferred result that turns out to be None publishes nothing: the sender's reply is then its OLD low-water mark, not
+                # an acknowledgement, and must not become the id the next recv() asks for (after an upstream restart that id is
+                # delivered a second time)
+                if kind == 'lazynone' and script['called'] and ok and mq.recv_state is not None:
+                    run.violation('glue:recv-state-after-none-result reply=%r' % script['ret'],
+                                  'the deferred result was None (nothing published), the sender replied %r, and MQ keeps that as the state of the next recv()' % script['ret'],
+                                  dict(sync=sync, ops=raw))
                 if kind in ('lazynone', 'lazyframe', 'lazydict') and not script['called'] and 'cb_result' in script and False:
                     pass
         run.seen(('glue', sync, tuple(ops_lit)))
